@@ -1,15 +1,19 @@
 """C15 — all database backends implement one contract (spec/kv/KV.tla).
 
 TLC: exhaustive check of the contract's own properties (batch = sequential application,
-all-or-nothing helpers, indexed reads-own-writes, snapshot isolation, iterator order/seek).
-Binding: differential replay of TLC-generated behaviours on db/memory, db/pebblev2, db/pebble
-and the syncbatch/bufferbatch wrappers; every return value and the full store content after
-every call must equal the specification's.
+all-or-nothing helpers, indexed reads-own-writes for Get/Has/iterators, snapshot isolation and
+frozen snapshot reads, iterator order/seek/prev) and of five mutants that must violate them.
+Binding: differential replay on db/memory, db/pebblev2, db/pebble, on-disk pebblev2 and the
+syncbatch/bufferbatch wrappers of (a) an edge cover of the exhaustively enumerated iterator and
+batch sub-machines (spec/kv/KVCover.tla: shape-complete in the small, identical in every run) and
+(b) TLC-simulated random behaviours; every return value and the full store content after every
+call must equal the specification's.
 """
 import json
 import vlib
 
 KEYS_FULL = [[0], [0, 0], [0, 255], [1], [255], [255, 255]]
+KEYS_SMALL = [[0], [0, 0], [0, 255], [255]]
 
 
 def validate_concurrent(ctx, binary, rounds, payload=None):
@@ -131,6 +135,135 @@ def empty_key_probe(ctx, binary):
         ctx.absorb(res, "kv", "TestKVEmptyKeyProbe")
 
 
+MUTANTS = [
+    ("KV_x_seekfromcur.cfg", "IterSeekIsLowerBound", "Seek searches from the current position"),
+    ("KV_x_prevseekmiss.cfg", "IterPrevIsAdjacent", "Prev after a Seek past the end stays invalid"),
+    ("KV_x_hasowndel.cfg", "IndexedReadsOwnWrites", "Has through an indexed batch ignores the batch's own delete"),
+    ("KV_x_batchiterrange.cfg", "IndexedReadsOwnWrites", "iterator over an indexed batch ignores the batch's range delete"),
+    ("KV_x_snaphaslive.cfg", "SnapshotReadsFrozen", "Has on a snapshot answers from the live store"),
+]
+
+
+def contract_is_sensitive(ctx, thorough=False):
+    """All features together over a tiny alphabet (exhaustive), then one wrong implementation of
+    one clause at a time: TLC must report exactly the property that names the clause. The runs are
+    small and independent: side by side."""
+    from concurrent.futures import ThreadPoolExecutor
+
+    def mutant(m):
+        cfg, prop, label = m
+        r = ctx.tlc_check("kv", "MCKV.tla", cfg, workers=2, timeout=600, expect_violation=True,
+                          label="KV mutant: %s (violation expected)" % label)
+        if r["violated"] != prop:
+            raise vlib.Broken("%s should violate %s, got %s" % (cfg, prop, r["violated"]))
+
+    with ThreadPoolExecutor(max_workers=6) as ex:
+        futs = [ex.submit(ctx.tlc_check, "kv", "MCKV.tla", "KV_all_tiny.cfg", 4, 600)]
+        futs += [ex.submit(mutant, m) for m in MUTANTS]
+        for f in futs:
+            f.result()
+    if thorough:
+        ctx.tlc_check("kv", "MCKV.tla", "KV_all_tiny_thorough.cfg", timeout=3000)
+
+
+def edge_cover(ctx, mode, cfg):
+    """KVCover.tla: TLC enumerates the guided state graph of one sub-machine exhaustively (one worker,
+    breadth first) and prints the shortest behaviour leading to every transition SHAPE it has not
+    seen before. Returns (behaviours, shapes): behaviours that are a prefix of another one dropped."""
+    r = ctx.tlc_check("kv", "KVCover.tla", cfg, workers=1, timeout=900, label="KVCover/%s" % cfg)
+    recs = []
+    for line in r["out"].splitlines():
+        if line.startswith('"{'):
+            try:
+                recs.append(json.loads(json.loads(line)))
+            except Exception:
+                raise vlib.Broken("unparsable cover line from %s: %s" % (cfg, line[:200]))
+    shapes = set(t for rec in recs for t in rec["cls"])
+    if len(recs) < 50 or len(shapes) < len(recs):
+        raise vlib.Broken("edge cover %s: %d behaviours, %d shapes - export broken" % (cfg, len(recs), len(shapes)))
+    # a behaviour that is a proper prefix of another one adds nothing (same calls, same expectations)
+    ser = sorted(([json.dumps(st, sort_keys=True) for st in rec["beh"]], i) for i, rec in enumerate(recs))
+    keep = []
+    for j, (sj, i) in enumerate(ser):
+        nxt = ser[j + 1][0] if j + 1 < len(ser) else None
+        if nxt is not None and len(nxt) >= len(sj) and nxt[:len(sj)] == sj:
+            continue
+        keep.append(recs[i]["beh"])
+    ctx.coverage["cover_%s_shapes" % mode] = len(shapes)
+    ctx.coverage["cover_%s_behaviours" % mode] = len(keep)
+    vlib.log("edge cover %s: %d shapes, %d behaviours (%d calls) after dropping prefixes" % (
+        mode, len(shapes), len(keep), sum(len(b) for b in keep)))
+    return keep, shapes
+
+
+READS = ("Get", "Has", "BatchGet", "BatchHas", "BatchSize", "SnapGet", "SnapHas")
+MOVES = ("IterFirst", "IterNext", "IterPrev", "IterSeek", "IterClose")
+
+
+def stitch(behaviours, maxlen=96):
+    """Fewer, longer behaviours with the same transitions (the on-disk backend pays per database
+    opened and per loaded key). Every cover behaviour is context + tail, where the tail is either
+    a run of read calls, or NewIter + moves, or one closing call; reads and a closed iterator leave
+    the state (store, batch, snapshot) exactly as the context left it, so the tails of all
+    behaviours with the same context can follow each other: context, all read tails, every iterator
+    tail followed by IterClose (result ok, store unchanged: the specification's IterClose), then one
+    closing tail. Each call keeps the expected result/store TLC computed for it, from the same state."""
+    groups, order = {}, []
+    for b in behaviours:
+        i = next((j for j, st in enumerate(b) if st["a"]["name"] == "NewIter"), None)
+        if i is not None and all(st["a"]["name"] in MOVES for st in b[i + 1:]):
+            ctxt, tail, kind = b[:i], b[i:], "iter"
+        else:
+            j = len(b)
+            while j > 0 and b[j - 1]["a"]["name"] in READS:
+                j -= 1
+            if j < len(b) and i is None:
+                ctxt, tail, kind = b[:j], b[j:], "read"
+            elif i is None:
+                ctxt, tail, kind = b[:-1], b[-1:], "close"
+            else:
+                ctxt, tail, kind = b, [], "whole"
+        key = json.dumps(ctxt, sort_keys=True)
+        if key not in groups:
+            groups[key] = {"ctxt": ctxt, "read": [], "iter": [], "close": [], "whole": []}
+            order.append(key)
+        groups[key][kind].append(tail)
+    out = []
+    for key in order:
+        g = groups[key]
+        ctxt = g["ctxt"]
+        store = ctxt[-1]["store"] if ctxt else None
+        close_step = {"a": {"name": "IterClose"}, "res": {"kind": "ok"}, "store": store}
+        cur = list(ctxt)
+        tails = [t for t in g["read"]]
+        for t in g["iter"]:
+            tails.append(t if t[-1]["a"]["name"] == "IterClose" else t + [dict(close_step, store=t[-1]["store"])])
+        for t in tails:
+            if len(cur) + len(t) > maxlen and len(cur) > len(ctxt):
+                out.append(cur)
+                cur = list(ctxt)
+            cur += t
+        closes = g["close"]
+        if closes:
+            cur += closes[0]
+        if len(cur) > len(ctxt) or not (g["whole"] or closes[1:]):
+            out.append(cur)
+        out += [ctxt + t for t in closes[1:]]
+        out += [ctxt for _ in g["whole"][:1]]
+    return out
+
+
+# shapes that must be in the cover whatever else changes (the classes the two missed changes live in)
+REQUIRED_SHAPES = {
+    "iter": ["it/store/nil/n3/last/IterSeek/before/in/exact/back", "it/snap/pfx-ub/n3/mid/IterSeek/before/in/exact/back",
+             "it/batch/nil/n2/last/IterSeek/before/in/next/back", "it/store/nil/n2/seekmiss/IterPrev/at/diff0",
+             "sread/SnapHas/1/0/has", "sread/SnapHas/0/1/has", "newiter/snap/pfx-ub/snap/n1/lo1/hi1",
+             "it/snap/pfx-ub/n1/only/IterSeek/before/below/next/stay", "it/batch/pfx-ub/n1/only/IterSeek/after/above/miss/na"],
+    "batch": ["bread/BatchHas/1/d/has", "bread/BatchHas/1/pd/has", "bread/BatchHas/1/r/has", "bread/BatchGet/1/d/notfound",
+              "bread/iter/1/r/0", "bread/iter/1/rp/1", "bwrite/0/1/pr", "update/update/0/1/d/read"],
+}
+
+
 def run(ctx):
     binary = ctx.build_engine("kv")
     if ctx.replay:
@@ -148,9 +281,33 @@ def run(ctx):
     ctx.tlc_check("kv", "MCKV.tla", "KV_iter_quick.cfg", timeout=600)
     if thorough:
         r = ctx.tlc_check("kv", "MCKV.tla", "KV_batch_thorough.cfg", timeout=3000, coverage=True)
-        vlib.require_actions_covered(r, ignore=("NewSnapshot", "SnapGet", "SnapClose", "NewIter", "IterFirst",
+        vlib.require_actions_covered(r, ignore=("NewSnapshot", "SnapGet", "SnapHas", "SnapClose", "NewIter", "IterFirst",
                                                 "IterSeek", "IterNext", "IterPrev", "IterClose", "MoveTo"))
         ctx.tlc_check("kv", "MCKV.tla", "KV_iter_thorough.cfg", timeout=3000)
+
+    contract_is_sensitive(ctx, thorough)
+
+    # shape-complete in the small: the edge cover of the iterator and the batch sub-machine,
+    # replayed on every backend / wrapper (the on-disk one included) in every run
+    from concurrent.futures import ThreadPoolExecutor
+    cover = []
+    modes = (("iter", "KV_cover_iter_thorough.cfg" if thorough else "KV_cover_iter.cfg"),
+             ("batch", "KV_cover_batch_thorough.cfg" if thorough else "KV_cover_batch.cfg"))
+    with ThreadPoolExecutor(max_workers=2) as ex:
+        covers = [f.result() for f in [ex.submit(edge_cover, ctx, mode, cfg) for mode, cfg in modes]]
+    for (mode, cfg), (behs, shapes) in zip(modes, covers):
+        missing = [t for t in REQUIRED_SHAPES[mode] if t not in shapes]
+        if missing:
+            raise vlib.Broken("edge cover %s lacks the shapes %s" % (cfg, missing))
+        cover += behs
+    n_unstitched = len(cover)
+    cover = stitch(cover)
+    ctx.coverage["cover_behaviours_replayed"] = len(cover)
+    vlib.log("edge cover: %d behaviours stitched into %d (%d calls)" % (n_unstitched, len(cover), sum(len(b) for b in cover)))
+    cres = ctx.run_engine(binary, "TestKVReplay", {"keys": KEYS_SMALL, "behaviours": cover, "disk_every": 1, "tag": "cover"}, timeout=3000)
+    ctx.absorb(cres, "kv", "TestKVReplay")
+    ctx.coverage["cover_steps_replayed"] = cres.get("steps", 0)
+    ctx.coverage["cover_actions_replayed"] = cres["stats"].get("actions_replayed")
 
     nruns = 12 if thorough else 2
     depth = 25 * (400 if thorough else 160)
@@ -169,10 +326,19 @@ def run(ctx):
         "a single Batch.Write / Put is atomic and durable in Pebble (the property is about equivalence of the backends)",
         "contract: no direct store write while an open batch holds a range delete (memory resolves it eagerly)",
         "iterator contract: after a failed Next/Prev only First/Seek; after a failed Seek only Prev/First/Seek",
+        "Batch.Size: exact for puts and deletes (bytes of keys and values), a lower bound once the log holds a range delete",
+        "BufferBatch implements Put/Delete/Get/Write/Close only (Has/Size/NewIterator/DeleteRange panic 'should not be called'): those calls are skipped on the bufferbatch variants",
     ]
     return ctx.finish(
         "model_checking",
-        "exhaustive TLC on two bounded configurations of KV.tla (batches; snapshot+iterators) + "
-        "schema-uniform TLC simulation behaviours (24 calls each over 6 keys incl. 0xff-terminated and "
-        "prefix-extending keys, 7 iterator prefixes, values incl. empty) replayed call by call on 8 backend "
-        "variants; non-trivial = every behaviour mutates the store and exercises at least a batch, snapshot or iterator")
+        "exhaustive TLC on three bounded configurations of KV.tla (batches; snapshot+iterators; everything together "
+        "over a tiny alphabet) and five mutants of it that must each violate the named property + an EDGE COVER "
+        "of the exhaustively enumerated iterator sub-machine (source x range shape x key count x position class x "
+        "call x seek target before/at/after, below/in/above the range, exact/next/miss, back/stay/forward) and of the "
+        "batch sub-machine (key in store? x the batch's operation history on the key x Get/Has/iterator/Write, the "
+        "Update/Write helpers with a read in the callback), exported by TLC as shortest behaviours and replayed on "
+        "all 8 backend variants in every run + schema-uniform TLC simulation behaviours (24 calls each over 6 keys "
+        "incl. 0xff-terminated and prefix-extending keys, 7 iterator prefixes, values incl. empty) replayed call by "
+        "call on the same variants; every call of db.KeyValueStore/Batch/IndexedBatch/Snapshot/Iterator is a "
+        "specification action with a compared result; non-trivial = every behaviour mutates the store and "
+        "exercises at least a batch, snapshot or iterator")
